@@ -215,10 +215,11 @@ def cfg_filter(cfg, rng):
 
 
 def pol_tweak(pol, cfg, rng):
-    if rng.random() < 0.02:
-        pol['muck'] = 'any'
     if rng.random() < 0.25:
         pol['policy'] = 'allin'
+    if rng.random() < (0.2 if pol['policy'] == 'allin' else 0.03):
+        pol['muck'] = 'any'
+        pol['muck_p'] = rng.choice([0.1, 0.6, 0.9])
 
 
 def nontrivial(ctx):
